@@ -5,6 +5,7 @@ pub mod common;
 pub mod fam;
 pub mod maphist;
 pub mod model;
+pub mod panicsafe;
 pub mod sethist;
 
 pub use support::{alloc, args, elems, fault, frame, ledger, report, rng};
